@@ -13,6 +13,9 @@ Lemma block_cap_ok : MAX_BLOCK * 255 < W32 /\ 0 < MIN_BLOCK /\ MIN_BLOCK <= MAX_
 Proof. unfold MAX_BLOCK, MIN_BLOCK, W32. lia. Qed.
 Lemma chunk_ok : MAX_BLOCK <= CHUNK_SIZE /\ 0 < CHUNK_SIZE.
 Proof. unfold MAX_BLOCK, CHUNK_SIZE. lia. Qed.
+(* the chunk of the streaming generator holds at least one block, whatever the block size *)
+Lemma stream_chunk_ok bs : bs <= stream_chunk bs /\ 0 < stream_chunk bs.
+Proof. unfold stream_chunk, CHUNK_SIZE. lia. Qed.
 
 (* (1) The rolling weak checksum after any sequence of k roll steps equals the
    directly computed checksum of the current window: for every data, every
@@ -44,13 +47,13 @@ Qed.
 Print Assumptions C04_copy_in_range_mem.
 
 Theorem C04_copy_in_range_stream : forall SH (H : list Z -> SH) Seq bs old new ops,
-  0 < bs <= MAX_BLOCK ->
-  gen_stream SH H Seq bs (compute_checksums SH H bs old) CHUNK_SIZE new = Some ops ->
+  0 < bs ->
+  gen_stream SH H Seq bs (compute_checksums SH H bs old) (stream_chunk bs) new = Some ops ->
   Forall (fun o => copy_in_range old o = true) ops.
 Proof.
-  intros SH H Seq bs old new ops Hbs E. pose proof chunk_ok.
+  intros SH H Seq bs old new ops Hbs E. pose proof (stream_chunk_ok bs) as (Hc1 & Hc2).
   eapply (from_cks_in_range SH H old (compute_checksums SH H bs old)); [intros c Hc; eapply compute_checksums_wf; [|exact Hc]; lia|].
-  eapply gen_stream_from_cks; try eassumption; lia.
+  eapply gen_stream_from_cks with (chunk := stream_chunk bs); [.. | exact E]; lia.
 Qed.
 Print Assumptions C04_copy_in_range_stream.
 
@@ -68,20 +71,20 @@ Qed.
 Print Assumptions C04_recon_mem.
 
 Theorem C04_recon_stream : forall SH (H : list Z -> SH) Seq bs old new,
-  0 < bs <= MAX_BLOCK ->
+  0 < bs ->
   collision_free SH H Seq old (compute_checksums SH H bs old) new ->
-  exists ops, gen_stream SH H Seq bs (compute_checksums SH H bs old) CHUNK_SIZE new = Some ops /\ apply old ops = Some new.
+  exists ops, gen_stream SH H Seq bs (compute_checksums SH H bs old) (stream_chunk bs) new = Some ops /\ apply old ops = Some new.
 Proof.
-  intros SH H Seq bs old new Hbs Hcf. pose proof chunk_ok. apply recon_stream; try assumption; try lia.
+  intros SH H Seq bs old new Hbs Hcf. pose proof (stream_chunk_ok bs) as (Hc1 & Hc2). apply recon_stream; try assumption; try lia.
   intros c Hc. eapply compute_checksums_wf; [|exact Hc]; lia.
 Qed.
 Print Assumptions C04_recon_stream.
 
 (* (3') Closed form for the executable instance (identity strong hash): no hypothesis left. *)
 Theorem C04_recon_id : forall bs old new,
-  0 < bs <= MAX_BLOCK ->
+  0 < bs ->
   (exists ops, gen_mem_id bs old new = Some ops /\ apply old ops = Some new) /\
-  (exists ops, gen_stream_id CHUNK_SIZE bs old new = Some ops /\ apply old ops = Some new).
+  (exists ops, gen_stream_id (stream_chunk bs) bs old new = Some ops /\ apply old ops = Some new).
 Proof.
   intros bs old new Hbs. split.
   - apply C04_recon_mem; [lia | apply id_collision_free; lia].
